@@ -93,10 +93,31 @@ Definition sstep_corr (s : sstep) : bool :=
   result_eqb (o_res o) (ss_res s) && fs_eqb (o_fs o) (ss_disk1 s)
   && states_eqb (o_states o) (ss_states1 s) && forallb ev_safe (o_trace o).
 
+(** Known-finding class "sparse-removal-skipped-assert": the removal pass of
+    set_sparse_patterns skips a path (a parent component of a file leaving the patterns is
+    a file or link on disk, or the path itself is a directory), so
+    assert_eq!(removed_stats.skipped_files, 0) panics after the disk was partly updated. *)
+Definition removal_skipped (s : sstep) : bool :=
+  let t := ss_tree s in
+  let o1 := run_update rn (ss_disk0 s) (ss_states0 s)
+                       (diff_fs (matches_diff (ss_new s) (ss_old s)) [] t) in
+  match o_res o1 with
+  | ROk _ =>
+      let o2 := run_update rn (o_fs o1) (o_states o1)
+                           (diff_fs (matches_diff (ss_old s) (ss_new s)) t []) in
+      match o_res o2 with
+      | ROk s2 => negb (N.eqb (n_skipped s2) 0)
+      | _ => false
+      end
+  | _ => false
+  end.
+Definition known_class (c : case) : bool :=
+  existsb (fun s => result_eqb (ss_res s) RPanic && removal_skipped s) (c_steps c).
+
 End Reserved.
 
 (** detail: 1 a step disagrees with the model, 2 hypotheses *)
 Definition check_case_rn (rn : list name) (c : case) : N :=
   let ok_steps := forallb (sstep_corr rn) (c_steps c) in
   let ok_pre := pre_ok rn c in
-  verdict (ok_steps && ok_pre) (okb c) false (if negb ok_steps then 1 else 2)%N.
+  verdict (ok_steps && ok_pre) (okb c) (known_class rn c) (if negb ok_steps then 1 else 2)%N.
